@@ -2,11 +2,12 @@
 # usage: check.sh <Cnn> <quick|thorough>   (VERIF_SEED, VERIF_BUDGET_S honoured)
 # Builds the driver if needed, then runs the check of one property against
 # /repo's current working tree.
-cd /verif || exit 2
+D=$(cd "$(dirname "$0")" && pwd); cd "$D" || exit 2
+export VERIF_DIR="$D"
 export GOFLAGS=-mod=mod GOPROXY=off GOSUMDB=off GOTOOLCHAIN=local
 export GOCACHE=${VERIF_GOCACHE:-/var/tmp/verif-gocache}
 if [ ! -x bin/verif ] || [ -n "$(find sim/cmd/verif -newer bin/verif -name '*.go' 2>/dev/null)" ]; then
   mkdir -p bin
-  (cd sim && /opt/veriftools/go1.26.8/bin/go build -o /verif/bin/verif ./cmd/verif) || { echo "BUILD-ERROR: driver" >&2; exit 2; }
+  (cd sim && /opt/veriftools/go1.26.8/bin/go build -o "$D/bin/verif" ./cmd/verif) || { echo "BUILD-ERROR: driver" >&2; exit 2; }
 fi
 exec bin/verif check "$1" --tier "${2:-quick}"
